@@ -35,8 +35,23 @@ class Case:
 # ------------------------------------------------------------------ primitive values
 
 def register(rng, kind: str) -> int:
+    v = _register(rng, kind)
+    _recent_registers.append(v)
+    del _recent_registers[:-6]
+    return v
+
+
+def _register(rng, kind: str) -> int:
     lo, hi = ce.RANGES[kind]
     r = rng.random()
+    if r < 0.12 and _recent_registers:
+        # the same raw value again in another field (a cache keyed by the raw value alone would confuse the two)
+        v = rng.choice(_recent_registers)
+        if lo <= v <= hi:
+            return v
+    if r < 0.2:
+        # realistic magnitudes: volts x 10, milliamps, watts
+        return min(hi, max(lo, rng.choice((2305, 2298, 2312, 230, 231, 229, 999, 16000, 1450, 75, 3338, 12, rng.randint(0, 999)))))
     if r < 0.35:
         pool = [lo, lo + 1, hi, hi - 1, 0, 1, 999, 1000, 1001, 57, 100, 255, 256, 32767, 32768, 65535, 65536, -1, -2,
                 # octets that mean something to the *other* parsers: CR LF, '(' ')', '/', '!', flag, escape, tags
@@ -48,7 +63,20 @@ def register(rng, kind: str) -> int:
     return rng.randint(lo, hi)
 
 
+DOCUMENTED_TEXT = ("KFM_001", "AIDON_V0001", "Kamstrup_V0001", "6970631402614476", "MA304H3E", "MA304H4", "7359992892587665", "6525", "5706567000000000",
+                   "6841121BN243101040", "6861111BN242101040")
+TOKENS = ("value", "datetime", "content", "length", "obis", "type", "index", "None", "null", "nan", "inf", "0", "-1", "1e5", "items", "keys", "__class__")
+_recent_registers: list[int] = []
+
+
 def ascii_text(rng, max_len: int = 18, min_len: int = 0, lengths=None) -> str:
+    r = rng.random()
+    if r < 0.25 and not lengths:
+        return rng.choice(DOCUMENTED_TEXT)[:max_len]
+    if r < 0.33 and not lengths:
+        # words that mean something to Python / the parsing library, alone or embedded
+        t = rng.choice(TOKENS)
+        return (rng.choice(("", "A_", "no-")) + t + rng.choice(("", "_V1", "-set")))[:max_len]
     n = rng.choice(lengths) if lengths else rng.randint(min_len, max_len)
     return "".join(rng.choice(PRINTABLE) for _ in range(n))
 
@@ -244,7 +272,7 @@ K_OBIS = {
 def _kaifa_value(rng, name, tags):
     """(encoded value, expected) for one field of a Kaifa list."""
     if name in names.KAIFA_STRING_FIELDS:
-        s = ascii_text(rng, lengths=(0, 1, 7, 8, 12, 12, 16, rng.randint(0, 30)))
+        s = ascii_text(rng, lengths=(0, 1, 7, 8, 12, 12, 16, rng.randint(0, 30))) if rng.random() < 0.6 else {"list_ver_id": "KFM_001", "meter_id": "6970631402614476", "meter_type": rng.choice(("MA304H3E", "MA304H4", "MA105H2E"))}[name]
         if len(s) == 12:
             tags.append("string_of_12")
         return ce.octet_string(s.encode("ascii")), ("str", s)
@@ -375,9 +403,15 @@ def kamstrup_case(rng, layout: str | None = None, ct: bool | None = None) -> Cas
     elif r < 0.7:
         padding = [rng.choice((0, 0, 4, rng.randint(0, 9))) for _ in range(len(pairs) + 1)]
         tags.append("null_padding")
-    else:
+    elif r < 0.93:
         padding = [rng.randint(0, 9) for _ in range(len(pairs) + 1)]
         tags.append("null_padding")
+    else:
+        # "any amount": one long run (beyond any read-ahead a parser might use) after one element
+        padding = [0] * (len(pairs) + 1)
+        padding[rng.randrange(len(padding))] = rng.choice((63, 64, 65, 100, 129, 200))
+        tags.append("null_padding")
+        tags.append("long_null_padding")
     body = ce.kamstrup_body(ver, pairs, padding)
     dt12, tagged, spec = apdu_variant(rng, allow_null=False)
     frame = ce.apdu(body, dt12, tagged, invoke=b"\x00\x00\x00\x00")
